@@ -6,6 +6,7 @@
      pc 0  validate + lookup:  findOrCreateControlConnection, HandleTunnelOpen, tunnelBridges[tid];
                                bridge present -> mapping agreement test, handleExistingBridge (attach) or refusal;
                                bridge absent  -> success ack, go on to pc 1
+     pc 1' attach to the bridge OBJECT looked up at pc 0 (handleExistingBridge after its ack write)
      pc 1  create / attach:    listening client -> startSourceBridge: insert unless the id is taken ("already exists");
                                otherwise        -> handleTargetBridge: bridge present NOW -> SetTargetConnection
    The mapping store is fixed during the race; no routing table (single node).
@@ -13,22 +14,33 @@
      late_agree = false : the tree with only the first C04 repairs — handleTargetBridge attaches to whatever bridge is
                           registered under the id by now, without comparing mappings
      late_agree = true  : fixes/C04-late-bridge-mapping-agreement.diff
-     source_reattach    : a startSourceBridge that re-attaches to an already registered bridge instead of failing *)
+     source_reattach    : a startSourceBridge that re-attaches to an already registered bridge instead of failing
+     refetch_existing   : a handleExistingBridge that looks the tunnel id up AGAIN after its ack write and attaches to whatever is
+                          registered then, without comparing mappings
+   Besides requests there are "bridge ends" threads (PcEnd): the bridge registered under a tunnel id is removed, so that a
+   later request can register ANOTHER bridge object (of another mapping) under the same client-chosen id. *)
 From TX Require Import Base.Threads Model.TunnelOpen.
 From Coq Require Import List NArith Bool.
 Import ListNotations.
 Open Scope N_scope.
 
-Record rvariant := { late_agree : bool; source_reattach : bool }.
-Definition head_variant : rvariant := {| late_agree := false; source_reattach := false |}.
-Definition fixed_variant : rvariant := {| late_agree := true; source_reattach := false |}.
+Record rvariant := {
+  late_agree : bool;          (* handleTargetBridge compares the mapping of the bridge it finds at attach time *)
+  source_reattach : bool;     (* startSourceBridge re-attaches to an already registered bridge instead of failing *)
+  refetch_existing : bool }.  (* handleExistingBridge looks tunnelBridges[T] up AGAIN after the ack write and attaches to that *)
+Definition head_variant : rvariant := {| late_agree := false; source_reattach := false; refetch_existing := false |}.
+Definition fixed_variant : rvariant := {| late_agree := true; source_reattach := false; refetch_existing := false |}.
 
+(* bridges are OBJECTS: a bridge registered under a tunnel id can end (runBridgeLifecycle removes it) and ANOTHER bridge can be
+   registered under the same client-chosen id later.  sh_id t is the identity (generation) of the object registered under t. *)
 Record shared := {
   sh_tun : tid -> option bridge;
-  sh_log : list (connref * tid * bool) }.   (* ghost: every attachment, with "entitled to THIS bridge's mapping" *)
+  sh_id : tid -> N;
+  sh_next : N;
+  sh_log : list (connref * tid * bool) }.   (* ghost: every attachment to a REGISTERED bridge, with "entitled to THIS bridge's mapping" *)
 
-Inductive rpc := PcLookup | PcAttach | PcDone.
-Record rlocal := { l_pc : rpc; l_cr : connref; l_conn : conn_id; l_req : request }.
+Inductive rpc := PcLookup | PcAttachExisting | PcAttach | PcEnd | PcDone.
+Record rlocal := { l_pc : rpc; l_cr : connref; l_conn : conn_id; l_req : request; l_gen : N }.
 
 Definition is_listen (d : db) (c : conn_id) (r : request) : bool :=
   if N.eqb (r_mid r) 0 then false
@@ -38,7 +50,21 @@ Definition is_listen (d : db) (c : conn_id) (r : request) : bool :=
        end.
 
 Definition set_pc (lo : rlocal) (pc : rpc) : rlocal :=
-  {| l_pc := pc; l_cr := l_cr lo; l_conn := l_conn lo; l_req := l_req lo |}.
+  {| l_pc := pc; l_cr := l_cr lo; l_conn := l_conn lo; l_req := l_req lo; l_gen := l_gen lo |}.
+Definition set_pc_gen (lo : rlocal) (pc : rpc) (g : N) : rlocal :=
+  {| l_pc := pc; l_cr := l_cr lo; l_conn := l_conn lo; l_req := l_req lo; l_gen := g |}.
+
+(* wiring connection cr into the registered bridge b (object identity unchanged) *)
+Definition wire (d : db) (r : request) (cr : connref) (b : bridge) : bridge :=
+  match existing d r with
+  | AttachSource => {| b_mid := b_mid b; b_src := Some cr; b_tgt := b_tgt b |}
+  | _ => {| b_mid := b_mid b; b_src := b_src b; b_tgt := Some cr |}
+  end.
+Definition put (sh : shared) (t : tid) (b : bridge) (e : connref * tid * bool) : shared :=
+  {| sh_tun := upd (sh_tun sh) t (Some b); sh_id := sh_id sh; sh_next := sh_next sh; sh_log := e :: sh_log sh |}.
+Definition register (sh : shared) (t : tid) (b : bridge) (e : connref * tid * bool) : shared :=
+  {| sh_tun := upd (sh_tun sh) t (Some b); sh_id := (fun k => if N.eqb k t then sh_next sh else sh_id sh k);
+     sh_next := sh_next sh + 1; sh_log := e :: sh_log sh |}.
 
 Definition rstep (rv : rvariant) (d : db) (lo : rlocal) (sh : shared) : rlocal * shared :=
   let c := l_conn lo in let r := l_req lo in let t := r_tid r in let cr := l_cr lo in
@@ -46,31 +72,33 @@ Definition rstep (rv : rvariant) (d : db) (lo : rlocal) (sh : shared) : rlocal *
   let ok := entitledb d c r (r_mid r) in
   match l_pc lo with
   | PcDone => (lo, sh)
+  | PcEnd =>                                               (* the bridge registered under t ends: removed from tunnelBridges *)
+      (set_pc lo PcDone, {| sh_tun := upd (sh_tun sh) t None; sh_id := sh_id sh; sh_next := sh_next sh; sh_log := sh_log sh |})
   | PcLookup =>
       if negb (c_registered c) then (set_pc lo PcDone, sh)
       else if negb (validate current d (c_client c) r) then (set_pc lo PcDone, sh)
       else match sh_tun sh t with
            | Some b =>
-               if N.eqb (b_mid b) (r_mid r) then
-                 let b' := match existing d r with
-                           | AttachSource => {| b_mid := b_mid b; b_src := Some cr; b_tgt := b_tgt b |}
-                           | _ => {| b_mid := b_mid b; b_src := b_src b; b_tgt := Some cr |}
-                           end in
-                 (set_pc lo PcDone, {| sh_tun := upd (sh_tun sh) t (Some b'); sh_log := (cr, t, ok && N.eqb (b_mid b) (r_mid r)) :: sh_log sh |})
+               (* mapping agreement on the bridge object just looked up; the ack write and the attach come later *)
+               if N.eqb (b_mid b) (r_mid r) then (set_pc_gen lo PcAttachExisting (sh_id sh t), sh)
                else (set_pc lo PcDone, sh)
            | None => (set_pc lo PcAttach, sh)
            end
+  | PcAttachExisting =>
+      match sh_tun sh t with
+      | None => (set_pc lo PcDone, sh)                     (* the object it holds is no longer registered: attaching to it changes nothing visible *)
+      | Some b =>
+          if refetch_existing rv || N.eqb (sh_id sh t) (l_gen lo) then
+            (set_pc lo PcDone, put sh t (wire d r cr b) (cr, t, ok && N.eqb (b_mid b) (r_mid r)))
+          else (set_pc lo PcDone, sh)                       (* another object is registered under t now: ours is an orphan *)
+      end
   | PcAttach =>
       if is_listen d c r then
         match sh_tun sh t with
-        | None => (set_pc lo PcDone,
-                   {| sh_tun := upd (sh_tun sh) t (Some {| b_mid := r_mid r; b_src := Some cr; b_tgt := None |});
-                      sh_log := (cr, t, ok) :: sh_log sh |})
+        | None => (set_pc lo PcDone, register sh t {| b_mid := r_mid r; b_src := Some cr; b_tgt := None |} (cr, t, ok))
         | Some b =>
             if source_reattach rv then
-              (set_pc lo PcDone,
-               {| sh_tun := upd (sh_tun sh) t (Some {| b_mid := b_mid b; b_src := Some cr; b_tgt := b_tgt b |});
-                  sh_log := (cr, t, ok && N.eqb (b_mid b) (r_mid r)) :: sh_log sh |})
+              (set_pc lo PcDone, put sh t {| b_mid := b_mid b; b_src := Some cr; b_tgt := b_tgt b |} (cr, t, ok && N.eqb (b_mid b) (r_mid r)))
             else (set_pc lo PcDone, sh)                       (* "tunnel already exists" *)
         end
       else
@@ -78,17 +106,19 @@ Definition rstep (rv : rvariant) (d : db) (lo : rlocal) (sh : shared) : rlocal *
         | None => (set_pc lo PcDone, sh)                      (* nothing to attach to *)
         | Some b =>
             if late_agree rv && negb (N.eqb (b_mid b) (r_mid r)) then (set_pc lo PcDone, sh)
-            else (set_pc lo PcDone,
-                  {| sh_tun := upd (sh_tun sh) t (Some {| b_mid := b_mid b; b_src := b_src b; b_tgt := Some cr |});
-                     sh_log := (cr, t, ok && N.eqb (b_mid b) (r_mid r)) :: sh_log sh |})
+            else (set_pc lo PcDone, put sh t {| b_mid := b_mid b; b_src := b_src b; b_tgt := Some cr |} (cr, t, ok && N.eqb (b_mid b) (r_mid r)))
         end
   end.
 
 Definition rstate := st shared rlocal.
 Definition rrun (rv : rvariant) (d : db) (s : rstate) (sched : list nat) : rstate := Threads.run shared rlocal (rstep rv d) s sched.
 Definition request_thread (cr : connref) (c : conn_id) (r : request) : rlocal :=
-  {| l_pc := PcLookup; l_cr := cr; l_conn := c; l_req := r |}.
-Definition rinit (ths : list rlocal) : rstate := ({| sh_tun := fun _ => None; sh_log := [] |}, ths).
+  {| l_pc := PcLookup; l_cr := cr; l_conn := c; l_req := r; l_gen := 0 |}.
+(* "the bridge registered under t ends" as a thread with one action *)
+Definition end_thread (t : tid) : rlocal :=
+  {| l_pc := PcEnd; l_cr := 0; l_conn := {| c_registered := false; c_client := 0 |};
+     l_req := {| r_mid := 0; r_tid := t; r_secret := 0; r_resume := false |}; l_gen := 0 |}.
+Definition rinit (ths : list rlocal) : rstate := ({| sh_tun := fun _ => None; sh_id := fun _ => 0; sh_next := 1; sh_log := [] |}, ths).
 
 (* connection cr is wired into the bridge registered under t *)
 Definition rholds (sh : shared) (cr : connref) (t : tid) : Prop :=
